@@ -897,8 +897,11 @@ pub fn generate(rng: &mut Rng, n: usize, tier: &str) -> Vec<Value> {
     let max_size = if thorough { 6 } else { 5 };
     for size in 1..=max_size {
         for e in enumerate(size, &mut memo) {
-            // size 6 (23k expressions) is sampled
+            // size 6 (23k expressions) is sampled; so is size 5 in the quick tier (wall time under load)
             if size == 6 && str_hash(&e.to_string()) % 4 != 0 {
+                continue;
+            }
+            if size == 5 && !thorough && str_hash(&e.to_string()) % 2 != 0 {
                 continue;
             }
             v.push(json!({"e": e, "sigma": [97, 98, 122], "len": 6}));
